@@ -146,6 +146,7 @@ type c12StatusKey struct {
 	metric       int32 // tag 1: metric the status is about
 	status       int32 // tag 2
 	tagKey       int32 // tag 3
+	str          string // the string the record carries (string-top key of the status row), "" for the plain part
 }
 
 type c12Snap struct {
@@ -201,14 +202,22 @@ func c12Take(a *agent.Agent) c12Snap {
 					}
 					row.items++
 					row.tags, row.stags, row.metric = it.Key.Tags, it.Key.STags, it.Key.Metric
+					for si := range row.stags {
+						row.stags[si] = strings.Clone(row.stags[si]) // the snapshot must not share memory with what it observes
+					}
 					row.tops += strings.Join(tops, ",")
 					s.rows[k] = row
 				case it.Key.Metric == format.BuiltinMetricIDIngestionStatus || it.Key.Metric == format.BuiltinMetricIDIngestionStatusNoShard:
-					n := it.Tail.Value.Count()
-					for _, mv := range it.Top {
-						n += mv.Value.Count()
+					if n := it.Tail.Value.Count(); n != 0 {
+						s.status[c12StatusKey{it.Key.Metric, it.Key.Tags[1], it.Key.Tags[2], it.Key.Tags[3], ""}] += n
 					}
-					s.status[c12StatusKey{it.Key.Metric, it.Key.Tags[1], it.Key.Tags[2], it.Key.Tags[3]}] += n
+					for tv, mv := range it.Top {
+						str := strings.Clone(tv.S)
+						if tv.I != 0 {
+							str = "#" + strconv.Itoa(int(tv.I)) + str
+						}
+						s.status[c12StatusKey{it.Key.Metric, it.Key.Tags[1], it.Key.Tags[2], it.Key.Tags[3], "=" + str}] += mv.Value.Count()
+					}
 				}
 			}
 		}
@@ -652,27 +661,88 @@ func c12Gen(rnd *rand.Rand, seq int, id int32, now uint32) *c12Event {
 	return e
 }
 
-func (e *c12Event) toTL() *tlstatshouse.MetricBytes {
-	mb := &tlstatshouse.MetricBytes{Name: append([]byte{}, e.metricName...)}
+// c12Arena is the one buffer all strings of consecutive events live in, like the
+// receive-side buffers of a receiver goroutine: every slot leaves room for the in-place
+// rewriting the mapper does (hex form of a bad string is twice as long), and the whole
+// buffer is overwritten after every call.
+type c12Arena struct {
+	buf      []byte
+	off      int
+	overflow int
+}
+
+func (a *c12Arena) put(s []byte) []byte {
+	slot := max(2*len(s)+16, 32)
+	if a.off+slot > len(a.buf) {
+		a.overflow++
+		return append(make([]byte, 0, slot), s...)
+	}
+	b := a.buf[a.off : a.off+len(s) : a.off+slot]
+	copy(b, s)
+	a.off += slot
+	return b
+}
+
+// scribble overwrites the whole buffer with bytes that look like the hex strings the
+// mapper produces, so that a record that still points here changes (and may collide).
+func (a *c12Arena) scribble(seq int) {
+	const hexd = "0123456789abcdef"
+	for i := range a.buf {
+		a.buf[i] = hexd[(i*7+seq*3+i>>4)&15]
+	}
+	a.off = 0
+}
+
+// toTL builds the event in the worker's reused MetricBytes, all strings inside the arena.
+func (e *c12Event) toTL(mb *tlstatshouse.MetricBytes, ar *c12Arena) {
+	ar.off = 0
+	val, hist, uniq, tags := mb.Value[:0], mb.Histogram[:0], mb.Unique[:0], mb.Tags[:0]
+	mb.Reset()
+	mb.Name = ar.put(e.metricName)
 	if e.hasCounter {
 		mb.SetCounter(e.counter)
 	}
 	if e.values != nil {
-		mb.SetValue(append([]float64{}, e.values...))
+		mb.SetValue(append(val, e.values...))
 	}
 	if e.hist != nil {
-		mb.SetHistogram(append([][2]float64{}, e.hist...))
+		mb.SetHistogram(append(hist, e.hist...))
 	}
 	if e.uniq != nil {
-		mb.SetUnique(append([]int64{}, e.uniq...))
+		mb.SetUnique(append(uniq, e.uniq...))
 	}
 	if e.ts != 0 {
 		mb.SetTs(e.ts)
 	}
 	for _, t := range e.tags {
-		mb.Tags = append(mb.Tags, tl.DictFieldStringStringBytes{Key: append([]byte{}, t.name...), Value: append([]byte{}, t.value...)})
+		tags = append(tags, tl.DictFieldStringStringBytes{Key: ar.put(t.name), Value: ar.put(t.value)})
 	}
-	return mb
+	mb.Tags = tags
+}
+
+// c12SnapDiff names the first difference between two observations of the same agent.
+func c12SnapDiff(a, b c12Snap) (what string, detail string) {
+	for k, va := range a.status {
+		if vb, ok := b.status[k]; !ok || vb != va {
+			return "status-records", fmt.Sprintf("status record %+v had count %g, now %g (present=%v)", k, va, vb, ok)
+		}
+	}
+	for k, vb := range b.status {
+		if _, ok := a.status[k]; !ok {
+			return "status-records", fmt.Sprintf("status record %+v (count %g) appeared", k, vb)
+		}
+	}
+	for k, ra := range a.rows {
+		if rb, ok := b.rows[k]; !ok || rb != ra {
+			return "metric-rows", fmt.Sprintf("row %+v changed (present=%v)", k, ok)
+		}
+	}
+	for k := range b.rows {
+		if _, ok := a.rows[k]; !ok {
+			return "metric-rows", fmt.Sprintf("row %+v appeared", k)
+		}
+	}
+	return "", ""
 }
 
 func (e *c12Event) describe() map[string]any {
@@ -732,7 +802,7 @@ func c12Norm(v string) string {
 func TestVerifC12(t *testing.T) {
 	r := verifkit.Start(t, "C12", "worker")
 	defer r.Finish()
-	r.SetRule("events over: 5 metric descriptions (mixed, percentiles, resolution 5 and 15, disabled) + unknown, badly encoded and built-in names; counter absent/0/boundary/negative/NaN/Inf/±MaxFloat32(1±1e-9); 0–4 values, histograms (incl. zero weights), uniques, values+uniques, nothing; timestamps now±, far past/future; 1–12 tags drawn from plain (normal, over-long, whitespace, control, invalid UTF-8, corrupted marker), canonical/deprecated names, raw and raw64 (in/out of range, junk), draft, unknown, non-UTF-8 names, string-top, host, environment, duplicates. Every second event takes its parts from a systematic walk over all 36 combinations counter{absent,0,positive} × values{none,some} × histogram{none,zero weights,positive weights} × uniques{none,some} (counters parts.* show each combination judged as valid and invalid); the other half draws them at random. Every event has its own row (unique raw tag). Non-trivial = the event carries at least one number; distinct = distinct event shape (row id excluded).")
+	r.SetRule("events over: 5 metric descriptions (mixed, percentiles, resolution 5 and 15, disabled) + unknown, badly encoded and built-in names; counter absent/0/boundary/negative/NaN/Inf/±MaxFloat32(1±1e-9); 0–4 values, histograms (incl. zero weights), uniques, values+uniques, nothing; timestamps now±, far past/future; 1–12 tags drawn from plain (normal, over-long, whitespace, control, invalid UTF-8, corrupted marker), canonical/deprecated names, raw and raw64 (in/out of range, junk), draft, unknown, non-UTF-8 names, string-top, host, environment, duplicates. Every second event takes its parts from a systematic walk over all 36 combinations counter{absent,0,positive} × values{none,some} × histogram{none,zero weights,positive weights} × uniques{none,some} (counters parts.* show each combination judged as valid and invalid); the other half draws them at random. Every event has its own row (unique raw tag). All strings of consecutive events live in one reused buffer that is overwritten after every call; the observation is repeated after the overwrite and at the end of each agent run. Non-trivial = the event carries at least one number; distinct = distinct event shape (row id excluded).")
 	r.Assume("the agent is created with agent.MakeAgent and never Run: buckets stay in Shard.SuperQueue where the monitor reads them; the mapping cache is empty, so plain tag values stay strings")
 	ms := c12MakeStorage(t)
 	r.SetCounter("builtin_metrics_not_receivable", int64(len(c12BuiltinNotReceivable()))) // also fills the list before the workers start
@@ -745,16 +815,29 @@ func TestVerifC12(t *testing.T) {
 		var wk *worker
 		var before c12Snap
 		var scratch []byte // reused across events, as the receivers do
+		var mb tlstatshouse.MetricBytes // reused, as the receivers' batch object is
+		ar := &c12Arena{buf: make([]byte, 256<<10)}
+		retire := func() {
+			if a == nil {
+				return
+			}
+			// end of this agent's run: everything recorded is still what it was
+			ar.scribble(-1)
+			if what, detail := c12SnapDiff(before, c12Take(a)); what != "" {
+				r.Violation("C12/recorded-state-changed-after-return/"+what+"/at-end-of-run", "what was recorded for earlier events changed later: "+detail, map[string]any{"detail": detail})
+			}
+		}
 		for i := 0; i < n/workers; i++ {
 			if i%perAgent == 0 {
+				retire()
 				a, wk = c12NewAgent(t, ms)
 				before = c12Take(a)
 			}
 			id := int32(i%perAgent + 1)
 			e := c12Gen(rnd, i, id, uint32(time.Now().Unix()))
-			mb := e.toTL()
+			e.toTL(&mb, ar)
 			var firstErr error
-			args := data_model.HandlerArgs{MetricBytes: mb, Scratch: &scratch, FirstError: &firstErr}
+			args := data_model.HandlerArgs{MetricBytes: &mb, Scratch: &scratch, FirstError: &firstErr}
 			switch rnd.IntN(8) {
 			case 0:
 				args.Scratch = nil // the HTTP receiver calls the handler without a scratch buffer
@@ -768,11 +851,34 @@ func TestVerifC12(t *testing.T) {
 			}
 			after := c12Take(a)
 			c12Judge(r, w, e, firstErr, before, after)
-			before = after
+			// the receive buffers now get the next packet: what was recorded must not move
+			ar.scribble(i)
+			for j := range mb.Value {
+				mb.Value[j] = -12345.678
+			}
+			for j := range mb.Unique {
+				mb.Unique[j] = -987654321
+			}
+			for j := range mb.Histogram {
+				mb.Histogram[j] = [2]float64{-1, 777}
+			}
+			for j := range scratch {
+				scratch[j] = 0xEE
+			}
+			after2 := c12Take(a)
+			if what, detail := c12SnapDiff(after, after2); what != "" {
+				wit := e.describe()
+				wit["detail"] = detail
+				r.Violation("C12/recorded-state-changed-after-return/"+what, "what was recorded for an event changed when the receive buffers were overwritten after the call: "+detail, wit)
+			}
+			w.Count("events.stability_judged", 1)
+			before = after2
 			if w.Index == 0 && i < 3 {
 				r.Sample(e.describe())
 			}
 		}
+		retire()
+		w.Count("arena.overflows", int64(ar.overflow))
 	})
 }
 
